@@ -145,6 +145,14 @@ EDITS = [
 ]
 
 
+# edits after which the program of the folder no longer loads or compiles
+BREAKING = [
+    ("a.oal", "[y]", "[y"), ("a.oal", "let x", "let other = missing;\nlet x"), ("a.oal", "let y", "let x = str;\nlet y"),
+    ("main.oal", "m.x", "m.zz"), ("main.oal", 'use "a.oal"', 'use "gone.oal"'), ("main.oal", "<t>", "<t"),
+    ("main.oal", "let t", 'use "main.oal";\nlet t'),
+]
+
+
 def snapshot(srv, root, texts):
     """what a client can observe: last diagnostics per file (as sets of (range, message)) and a few answers"""
     main = "file://%s/main.oal" % root
@@ -220,17 +228,46 @@ def real_history(ctx, idx):
             if rng.random() < 0.3:
                 srv.pos_request("textDocument/definition", "file://%s/main.oal" % root, 0, 0)
                 steps.append("request")
+        if idx % 2 == 0:
+            # directed ending: the unsaved buffer of a document breaks the program, the server
+            # shows it, and closing that document is the last notification
+            name = rng.choice(list(FILES))
+            uri = "file://%s/%s" % (root, name)
+            if name not in opened:
+                srv.open(uri, texts[name])
+                opened.add(name)
+                steps.append("open " + name)
+            bad = [e for e in BREAKING if e[0] == name and e[1] in texts[name]]
+            if bad:
+                e = rng.choice(bad)
+                t = texts[name]
+                pos = t.find(e[1])
+                a = len(t[:pos].encode("utf8"))
+                srv.change(uri, [{"range": lspws.rng_of(t, a, a + len(e[1].encode("utf8"))), "text": e[2]}])
+                steps.append("edit %s: %r -> %r" % (name, e[1], e[2]))
+                if rng.random() < 0.85:
+                    srv.pos_request("textDocument/definition", "file://%s/main.oal" % root, 0, 0)
+                    srv.drain(0.05)
+                    steps.append("request")
+                srv.close_doc(uri)
+                opened.discard(name)
+                texts[name] = FILES[name]
+                steps.append("close " + name)
         got = snapshot(srv, root, texts)
         alive = srv.alive()
     finally:
         srv.stop()
     inp = {"steps": steps, "final_texts": texts, "opened": sorted(opened)}
+    compare_with_fresh(ctx, idx, inp, got, alive, srv, root, texts, opened)
+
+
+def compare_with_fresh(ctx, idx, inp, got, alive, srv, root, texts, opened):
     ctx.cov["evaluations"] += 1
     if got is None or not alive:
         ctx.violation("the language server died or stopped answering during a history of notifications", inp, "alive", "".join(srv.stderr[-4:])[:400])
         return
     # fresh server handed the final texts
-    root2 = lspws.fresh_dir("c15_%d_fresh" % idx)
+    root2 = lspws.fresh_dir("c15_%s_fresh" % idx)
     lsp.write_workspace(root2, FILES)
     srv2 = lsp.Server(root2)
     try:
@@ -252,6 +289,47 @@ def real_history(ctx, idx):
     else:
         ctx.count("real_histories_equal")
         ctx.cov["traces_validated_against_impl"] += 1
+
+
+def replay_steps(ctx, steps):
+    """re-run the recorded steps of a real history (open / close / edit / request) and compare with a fresh server"""
+    import ast
+    import re
+    root = lspws.fresh_dir("c15_replay")
+    lsp.write_workspace(root, FILES)
+    texts = dict(FILES)
+    opened = set()
+    srv = lsp.Server(root)
+    try:
+        srv.initialize()
+        for st in steps:
+            m = re.match(r"edit (\S+): (.*) -> (.*)$", st, flags=re.S)
+            if st.startswith("open "):
+                name = st[5:]
+                srv.open("file://%s/%s" % (root, name), texts[name])
+                opened.add(name)
+            elif st.startswith("close "):
+                name = st[6:]
+                srv.close_doc("file://%s/%s" % (root, name))
+                opened.discard(name)
+                texts[name] = FILES[name]
+            elif st == "request":
+                srv.pos_request("textDocument/definition", "file://%s/main.oal" % root, 0, 0)
+                srv.drain(0.05)
+            elif m:
+                name, old, new = m.group(1), ast.literal_eval(m.group(2)), ast.literal_eval(m.group(3))
+                t = texts[name]
+                pos = t.find(old)
+                if pos < 0:
+                    continue
+                a = len(t[:pos].encode("utf8"))
+                srv.change("file://%s/%s" % (root, name), [{"range": lspws.rng_of(t, a, a + len(old.encode("utf8"))), "text": new}])
+                texts[name] = t[:pos] + new + t[pos + len(old):]
+        got = snapshot(srv, root, texts)
+        alive = srv.alive()
+    finally:
+        srv.stop()
+    compare_with_fresh(ctx, "replay", {"steps": steps, "final_texts": texts, "opened": sorted(opened)}, got, alive, srv, root, texts, opened)
 
 
 DIAG_TEXTS = {
@@ -421,6 +499,8 @@ def check(ctx):
         v = json.load(open(ctx.replay))
         if "events" in v["input"]:
             diag_tie(ctx, fixed=[(v["input"]["disk"], v["input"]["events"])])
+        if "steps" in v["input"]:
+            replay_steps(ctx, v["input"]["steps"])
         if "history" in v["input"]:
             o = core.run_stateless(core.IMPL, "lspdoc", [v["input"]["history"]])[0]
             core.log("impl: " + str(o))
@@ -466,7 +546,7 @@ def check(ctx):
     # diagnostics bookkeeping: model = code, history = fresh
     diag_tie(ctx)
     # real binary
-    for k in range(120 if ctx.thorough else 10):
+    for k in range(120 if ctx.thorough else 14):
         real_history(ctx, k)
         if len(ctx.violations) > 3:
             break
